@@ -7,8 +7,6 @@
 (*       invariants, -coverage 1; the same run emits the behaviours (PrintHist).          *)
 (*   MC_WalrusBlocks_defect_* : one historical defect switched back on; TLC must report    *)
 (*       a violation of RefinesCex and print the behaviour (vacuity guard + regression).  *)
-(*   MC_WalrusBlocks_known_iddrift : the avoidance guard of the recorded finding              *)
-(*       KF-ENG-EMPTY-INITIAL-BLOCK removed; TLC must re-derive that finding from the design. *)
 (* `hist` is hidden by VIEW, so TLC's breadth-first search visits every distinct          *)
 (* (code path of the last operation, design state, contract state) once and PrintHist      *)
 (* prints one shortest behaviour for each.                                               *)
@@ -37,8 +35,7 @@ NoShapes == {}
 
 View == <<avars, dvars>>
 
-(* avoidance guards for recorded findings (CONSTRAINT): explore around them, not into them *)
-GuardKnown == IdsStable
+(* avoidance guards for recorded findings (CONSTRAINT) would go here; none is needed at present *)
 NoGuard == TRUE
 
 Summary == [mode |-> mode[0], pe |-> pe[0], last |-> lastOp, v |-> viol, h |-> hist,
